@@ -2,6 +2,7 @@ import Driver.Util
 import FV.Model.Headers
 import FV.Model.Registry0
 import FV.Model.Context
+import FV.Model.ContextOnward
 import FV.Spec.V0Layout
 
 /-
@@ -13,12 +14,42 @@ C09 driver ops (see harness/rt/context.go for the real side):
   c9rsp <wire> <resp>                  ReadResponseHeader into a context whose response headers are resp
   c9srvd/c9rspd … <k>                  c9srv/c9rsp over a reader that hands out at most k bytes per Read
   c9e2e <cid> <tr> <opid> <ns> <ctr> <U> <R>   a whole call over the named real transport
+  c9onw <cid> <tr> <opid> <ns> <ctr> <U> <script>   a call whose handlers run scripts (set headers / onward calls)
   c9ids <who> <n> <ctr>                the n op ids issued (concurrently) from counter value ctr
   c9mar <wire> <map>                   the header bytes written for a context's request/response map
   c9tmo <value|none>                   Timeout() of a context whose _timeout header is value / missing
 -/
 namespace Driver
 open FV
+
+/-- Handler scripts in prefix form, tokens separated by `,`: `P.<k>.<v>` AddResponseHeader, `Q.<k>.<v>`
+AddRequestHeader, `C` … `E` onward call with the inbound context (the tokens in between are the downstream
+handler's script), `K` … `E` the same with a Clone. -/
+def parseActs : Nat → List String → Option (List HAct × List String)
+  | 0, _ => none
+  | _ + 1, [] => some ([], [])
+  | fuel + 1, tok :: rest =>
+    if tok == "E" then some ([], rest)
+    else if tok == "C" || tok == "K" then do
+      let (sub, rest1) ← parseActs fuel rest
+      let (t, rest2) ← parseActs fuel rest1
+      pure (.call (tok == "K") sub :: t, rest2)
+    else match tok.splitOn "." with
+      | [kind, k, v] => do
+        let k ← unhexChars k.toList
+        let v ← unhexChars v.toList
+        let (t, r) ← parseActs fuel rest
+        if kind == "P" then pure (.setResp k v :: t, r)
+        else if kind == "Q" then pure (.setReq k v :: t, r)
+        else none
+      | _ => none
+
+def parseScript (s : String) : Option (List HAct) :=
+  if s == "-" then some [] else
+  let toks := s.splitOn ","
+  match parseActs (toks.length + 1) toks with
+  | some (a, []) => some a
+  | _ => none
 
 def showOpId (c : Ctx) : String := showRes (fun n => toString n) c.opId
 
@@ -54,6 +85,15 @@ def stepContext (op : String) (args : List String) : Option String :=
     pure (showRes (fun (s, cc) =>
       s!"ok req={pairsOf s.req} resp={pairsOf s.resp} cid={hexOf s.correlationID} timeout={s.timeout} after={pairsOf cc.resp}")
       (callThrough cid opid u ns ctr r))
+  | "c9onw", [cid, _tr, opid, ns, ctr, u, script] => do
+    let cid ← unhex cid
+    let opid ← opid.toNat?
+    let ns ← ns.toInt?
+    let ctr ← ctr.toNat?
+    let u ← parsePairs u
+    let script ← parseScript script
+    pure (showRes (fun (c, seen) =>
+      s!"ok after={pairsOf c.resp} seen={"|".intercalate (seen.map pairsOf)}") (callScript cid opid u ns ctr script))
   | "c9ids", [_who, n, ctr] => do
     let n ← n.toNat?
     let ctr ← ctr.toNat?
